@@ -61,18 +61,55 @@ func headerIntact(content, tags string) bool {
 	return false
 }
 
-// premiseHolds: every non-input file present before the op is absent-or-header-intact
-// under the op's build tags (DESIGN §4.4). Non-.go leftovers do not matter to the go tool.
-func premiseHolds(o *Obs, tags string) bool {
+// premiseHolds: every non-input .go file present before the op is header-intact under the
+// op's build tags — or lives in a directory that the run does not select (DESIGN §4.4): a
+// file torn inside its header carries no build constraint; inside a SELECTED package the go
+// tool treats it as a user source (part of "the input"), anywhere else it is just a broken
+// previous output and must not matter.
+func premiseHolds(o *Obs, tags string, canon []string, module string) bool {
+	sel, all := selectedDirs(canon, module)
 	for p, c := range o.PriorOutputs {
 		if !strings.HasSuffix(p, ".go") {
 			continue
 		}
-		if !headerIntact(c, tags) {
+		if headerIntact(c, tags) {
+			continue
+		}
+		dir := ""
+		if i := strings.LastIndex(p, "/"); i >= 0 {
+			dir = p[:i]
+		}
+		if all || sel[dir] {
 			return false
+		}
+		for d := range sel {
+			// wildcard-free patterns select exact directories only
+			_ = d
 		}
 	}
 	return true
+}
+
+// selectedDirs maps canonical patterns to module-relative directories; all is true when a
+// pattern selects subtrees (…/...).
+func selectedDirs(canon []string, module string) (map[string]bool, bool) {
+	sel := map[string]bool{}
+	all := false
+	for _, p := range canon {
+		switch {
+		case strings.Contains(p, "..."):
+			all = true
+		case p == "." || p == "./" || p == module:
+			sel[""] = true
+		case strings.HasPrefix(p, "./"):
+			sel[strings.TrimSuffix(strings.TrimPrefix(p, "./"), "/")] = true
+		case strings.HasPrefix(p, module+"/"):
+			sel[strings.TrimPrefix(p, module+"/")] = true
+		default:
+			all = true // unknown pattern form: be conservative
+		}
+	}
+	return sel, all
 }
 
 // produced returns the files the op wrote (seam log ∪ tree diff) with final content.
@@ -141,17 +178,17 @@ func JudgeC09(c *Ctx, h *History, obs []*Obs) ([]Violation, error) {
 			return nil, &InfraError{Msg: "node timed out"}
 		}
 		tags := effTags(g, h.World)
-		if !premiseHolds(o, tags) {
+		canon := g.Canon
+		if canon == nil {
+			canon = h.World.Patterns
+		}
+		if !premiseHolds(o, tags, canon, h.World.Module) {
 			c.Stats.Add("c09.premise_excluded_gens", 1)
 			continue
 		}
 		globals := g.Globals
 		if globals == nil {
 			globals = h.World.Globals
-		}
-		canon := g.Canon
-		if canon == nil {
-			canon = h.World.Patterns
 		}
 		ro := RefOpts{Globals: globals, BuildTags: g.BuildTags, OutputConstraint: g.OutputConstraint, Patterns: canon}
 		if ro.BuildTags == nil {
